@@ -69,7 +69,13 @@ Definition required_guards : list string := [
   "req.Transport.tryPutIdleConn|len(idles) >= t.maxIdleConnsPerHost()";
   "req.Transport.tryPutIdleConn|t.MaxIdleConns != 0 && t.idleLRU.len() > t.MaxIdleConns";
   "req.Transport.tryPutIdleConn|t.DisableKeepAlives || t.MaxIdleConnsPerHost < 0";
-  "req.Transport.tryPutIdleConn|t.closeIdle" ].
+  "req.Transport.tryPutIdleConn|t.closeIdle";
+  (* Model/Carried.v: cm_key, should_retry_dial *)
+  "req.connectMethod.key|(cm.proxyURL.Scheme == ""http"" || cm.proxyURL.Scheme == ""https"") && cm.targetScheme == ""http""";
+  "req.connectMethod.key|cm.proxyURL != nil";
+  "http2.shouldRetryDial|call.err == nil";
+  "http2.shouldRetryDial|call.ctx == req.Context()";
+  "http2.shouldRetryDial|!errors.Is(call.err, context.Canceled) && !errors.Is(call.err, context.DeadlineExceeded)" ].
 
 Theorem guards_present : forall g, In g required_guards -> In g go_guards.
 Proof.
